@@ -8,7 +8,7 @@ TECH="static analysis over go/types + go/ssa of /repo's current tree: "
 CLAIMED={
  'C02':("typestate abstract interpretation of the row-grouping loop (rows in page, buffer emptiness, separator/emit/cursor pending, page counter minus pages emitted), CFG cuts on the browse-entry flag protocol with normalised last/first-page comparisons, zone bounds of the page cursor and menu functions, separator and result plumbing by value flow",
         "Decides structural necessary conditions of pagination for all row contents (including empty rows), sizes and indices: a page index past the end is an error; 'next'/'previous' are offered exactly off the last/first page; in the grouping loop a separator lies between any two rows of a page, every page holding rows is emitted and counted, and each page separator gets exactly one cursor at the offset behind it; cursor 0 precedes the grouping, the menu's page count and the sink value are the grouping's results, the lookup cuts at the first separator including offset 0, separators agree. The partition relation itself and everything depending on the capacity arithmetic (where breaks fall, whether a row fits a fresh page) are value-level and not decided. One defect found and repaired (empty rows lost)."),
- 'C14':("table extraction and comparison (opcode maps, switch case sets, decoder success-path argument signatures vs every NewLine call site in the repository and the ParseHandler callback types), zone bounds of the primitive decoders, encoder limit guards",
+ 'C14':("table extraction and comparison (opcode maps, switch case sets, decoder success-path argument signatures vs every NewLine call site in the repository and the ParseHandler callback types), zone bounds of the primitive decoders, encoder limit guards incl. range proofs of length-byte narrowing",
         "Decides format agreement between the separate codecs on finite tables: opcode tables inverse and complete, per-opcode argument signatures identical at the decoder, at every encoder call site and in the disassembler callbacks, primitive framing limits agree and cannot wrap, the integer encoder keeps low-order bytes. Round-trip equality of values over the full domains is value-level and not decided."),
  'C16':("backward value flow from symbol writers to numeric grammar captures through int-to-string conversions; extraction of the batch expansion from SSA and comparison with the documented table; opcode-identity flow",
         "Decides three structural clauses of assembler fidelity: no numeric re-rendering of selectors (two known findings), batch expansion identical to the documented table with source order preserved, opcode taken from the line's mnemonic. Per-program translation fidelity in general is not decided."),
@@ -34,7 +34,7 @@ CLAIMED={
         "Decides the gating clauses of input routing on every path: match recorded before the move, INMATCH only cleared on resume, the move only behind selector==input or the wildcard, fallthrough to the catch node with the invalid-input message, refused 'previous' counts as no match, the recorded input is the client's bytes. One known finding (second match before the next HALT, pinned by TestRunReturn). Transcript equivalence with a reference router is not decided."),
  'C07':("field read/write effect sets over the CHA-reachable request path, automatic config/state classification of renderer fields, forward must-write analysis with callee summaries over the resume block",
         "Decides that nothing outside the persisted snapshot carries information across a request boundary: every live State/Cache field is in the CBOR snapshot (or in a checked exception table), and every request-state field of the unpersisted renderer objects that is read on the run/render path is re-initialised on every path through the resume block. Output equality for all programs additionally needs deterministic external code and is not decided."),
- 'C08':("classification of CHA-reachable explicit panics, Down/Push-Up/Pop pairing, zone bounds proofs of the page-cursor/menu/input-validation functions, BrowseError handling, cache accounting rules",
+ 'C08':("classification of CHA-reachable explicit panics, Down/Push-Up/Pop pairing, zone bounds proofs of the page-cursor/menu/input-validation functions, BrowseError handling, cache accounting rules, range proofs of every lossy integer narrowing on the request path",
         "Decides the named crash and consistency mechanisms: reachable explicit panics are classified (a new one is reported), stack and cache move in lockstep on every path, browsing out of range is an error (bounds proved), input validation cannot index out of range, accounting rules hold. Implicit panics in the rest of the reachable code are not decided. One known finding (CROAK)."),
  'C04':("dispatch-table extraction, per-method store value classes, who-may-write, must-pass-through on the CFG",
         "Decides for every history, by induction on its steps, that each navigation step applies exactly the documented update: the dispatcher's case table, the movers' store signatures, single-writer and rewind-exit clauses are structural necessary conditions checked on all paths of the SSA. It does not run go-vise; equality with the table over histories is the stated inductive argument, not an enumeration."),
@@ -42,9 +42,9 @@ CLAIMED={
         "Decides the structural clauses behind symbol lifetime on every path: load-once guard, operand flow, scope pairing, renderer reset after every move, reload sequence, empty-result handling. History-level 'gone after ascent' is not decided."),
  'C06':("edge-dominance of the write filter, interval analysis of IsWriteableFlag vs the documented table, who-may-write, TERMINATE gate as a CFG cut",
         "Decides for all flag indices and results that dynamic flag writes are filtered, that the filter accepts exactly the documented set, that no instruction is dispatched without passing the TERMINATE gate, and that CATCH/CROAK act exactly on MatchFlag(sig,mode). One known finding (pre-VM hook clears TERMINATE)."),
- 'C09':("per-method effect classification of stores to the cache's accounting fields, guard cuts on success paths, rollback-before-error-return",
+ 'C09':("per-method effect classification of stores to the cache's accounting fields, guard cuts on success paths, rollback-before-error-return, range proof of the LOAD limit conversion",
         "Decides the inductive step of the accounting invariant for every operation and argument: limits compared without truncation, every success path behind the limit/capacity/uniqueness guards, every accounting update of the right value class, every rejected operation restored, scope release complete. The numeric sum invariant over histories follows by induction and is not enumerated."),
- 'C15':("difference-constraint (zone) bounds proof of every byte index/slice in package vm, error value flow, switch totality, success-path argument signatures",
+ 'C15':("difference-constraint (zone) bounds proof of every byte index/slice in package vm, error value flow, switch totality, success-path argument signatures, range proofs of operand narrowing",
         "Closest to a proof in this suite: every index, slice and length-preconditioned call on bytecode in package vm is proved in bounds for all byte strings from dominating guards; every decoder error is shown to flow to the caller with results used only behind err==nil; dispatch totality, opcode and integer-width range, and equal argument sequences on all success paths are decided. Callbacks supplied by callers are outside."),
 }
 NA={
